@@ -718,6 +718,12 @@ def corpus():
     H.append({'cfg': cfg0, 'files': base, 'steps': [
         ['S', [['s', 'a%b'], ['sub:q', 'x=y']]], ['C', [D('s', '%(y)s'), D('y', 'k:v')]], ['R', [['sub:q', '#c;d']]], ['W', []],
         ['C', [D('s', ' lead'), D('sub:q', 'a b')]], ['R', []], ['W', []]]})
+    # a yielding option that the user overrode keeps the override when its OWN choices change and the
+    # value stays valid; it must not start following the parent again
+    sub_c4_only = F(base['top'][:-2], [mk('q', 's', 'qd'), mk('c', 'c', 'b', choices=c4, **{'yield': True})] + base['sub'][2:])
+    H.append({'cfg': cfg0, 'files': base, 'steps': [
+        ['S', [['c', 'c']]], ['C', [D('sub:c', 'b')]], ['E', sub_c4_only], ['R', []], ['C', [D('c', 'a')]], ['R', []],
+        ['E', base], ['C', [D('werror', 'true')]], ['C', [D('c', 'b')]], ['R', []]]})
     # duplicates on one command line, -D then -U of the same key
     H.append({'cfg': cfg0, 'files': base, 'steps': [
         ['S', [['s', '1'], ['s', '2']]], ['C', [D('sub:werror', 'true'), U('sub:werror')]], ['C', [U('sub:werror'), D('sub:werror', 'true')]],
